@@ -122,6 +122,57 @@ def make_factory(style, made):
     return factory
 
 
+# ---------------------------------------------------------------- process-level state (wave 8)
+# Mutable class attributes and module globals of the server / bptk / scenario-manager modules outlive a server object.  So that a
+# leak through them inside ONE server is reported with a replay that reproduces (and does not contaminate the solo replays on the
+# following servers), every server starts from the state these objects had at import time; what a server's requests wrote into them
+# is recorded (`_proc_dirty`) and decides the fact `sharedIsHandlerDefaults`.
+_PROC_MODULES = ("BPTK_Py.server.bptkServer", "BPTK_Py.bptk", "BPTK_Py.scenariomanager.scenario_manager_factory",
+                 "BPTK_Py.scenariomanager.scenario_manager_sd", "BPTK_Py.scenariomanager.scenario_manager",
+                 "BPTK_Py.scenariomanager.scenario", "BPTK_Py.scenariorunners.sd_runner")
+_proc_snapshot, _proc_dirty = {}, set()
+
+
+def _proc_cells():
+    import inspect, importlib
+    for mn in _PROC_MODULES:
+        try:
+            mod = importlib.import_module(mn)
+        except Exception:
+            continue
+        for name, val in list(vars(mod).items()):
+            if isinstance(val, (dict, list, set)) and not name.startswith("__"):
+                yield (mn, None, name), mod, name
+            if inspect.isclass(val) and getattr(val, "__module__", None) == mn:
+                for an, av in list(vars(val).items()):
+                    if isinstance(av, (dict, list, set)) and not an.startswith("__"):
+                        yield (mn, val.__name__, an), val, an
+
+
+def proc_snapshot():
+    import copy
+    if not _proc_snapshot:
+        for key, owner, name in _proc_cells():
+            try:
+                _proc_snapshot[key] = copy.deepcopy(getattr(owner, name))
+            except Exception:
+                pass
+
+
+def proc_restore():
+    """note what was written since the last restore, then put the import-time values back (new objects)"""
+    import copy
+    proc_snapshot()
+    for key, owner, name in _proc_cells():
+        if key in _proc_snapshot:
+            try:
+                if getattr(owner, name) != _proc_snapshot[key]:
+                    _proc_dirty.add(".".join(x for x in (key[0].split(".")[-1], key[1], key[2]) if x))
+                    setattr(owner, name, copy.deepcopy(_proc_snapshot[key]))
+            except Exception:
+                pass
+
+
 TIMEOUT = {"weeks": 0, "days": 0, "hours": 1000, "minutes": 0, "seconds": 0, "milliseconds": 0, "microseconds": 0}
 OWN = -1                      # owner index of the server-level requests (/run, /equations, /agents)
 GHOST = -2                    # owner index of requests to an id that never existed (wave 3); id 99 in the model
@@ -132,6 +183,7 @@ class Srv:
     """one BptkServer; `ad`: with a FileAdapter (compressed state) in a scratch directory of its own"""
     def __init__(self, style, ad=False):
         from BPTK_Py.server import BptkServer
+        proc_restore()
         self.made = []
         self.ad = ad
         self.dir = None
@@ -275,12 +327,16 @@ def canon_body(data):
 def op_code(i, op):
     i = 99 if i == GHOST else max(i, 0)
     if op[0] in ("s", "b", "R") and len(op) > 1 and op[1] is not None:
+        if op[0] == "b" and not pairs(op[1]):
+            return f"{i}B"              # begin-session with a `settings` key that is present and EMPTY
         return f"{i}{op[0]}" + "+".join(f"{k}={v}" for k, v in pairs(op[1]))
-    return f"{i}{op[0]}"
+    return f"{i}{op[0]}"               # (begin-session / /run without settings: the key is OMITTED from the body)
 
 
 def op_str(i, op):
     who = "srv" if i == OWN else "ghost" if i == GHOST else str(i)
+    if op[0] == "b" and len(op) > 1 and op[1] is not None and not pairs(op[1]):
+        return f"{who}:b(settings={{}})"
     if op[0] in ("s", "b", "R") and len(op) > 1 and op[1] is not None:
         return f"{who}:{op[0]}(" + ",".join(f"{KEYS[k][1]}={v}" for k, v in pairs(op[1])) + ")"
     return f"{who}:{op[0]}"
@@ -467,7 +523,10 @@ def gen_list(rng, long, created=False, points_heavy=False, unpersisted=False, ab
             s = (rng.choice(["p", "q"]), s[1])
         return s
     ops = [("c",)] if created else []
-    ops.append(("b", sett(2)))
+    def bsett(w):
+        # the optional `settings` part of begin-session: omitted (None) / present and empty / present with values
+        return ("m", ()) if rng.chance(1, 7) else sett(w)
+    ops.append(("b", bsett(2)))
     n = rng.range(2, 6 if long else 3)
     for _ in range(n):
         r = rng.below(12)
@@ -480,7 +539,7 @@ def gen_list(rng, long, created=False, points_heavy=False, unpersisted=False, ab
         elif r < 10:
             ops.append(("k",))
         elif r < 11:
-            ops += [("e",), ("b", sett(2))] if rng.chance(1, 2) else [("e",), ("s", None)]
+            ops += [("e",), ("b", bsett(2))] if rng.chance(1, 2) else [("e",), ("s", None)]
         else:
             ops.append(("x",) if rng.chance(1, 2) else ("t",))
     if unpersisted:
@@ -710,7 +769,7 @@ def probe_restore(srvs, solo):
 
 def cfg_line(facts, st):
     return (f"cfg {'1' if facts[st] else '0'} {'1' if facts['restore'] else '0'} {'1' if facts['freshObj'] else '0'} "
-            f"{'1' if facts['kindScn'][st] else '0'}")
+            f"{'1' if facts['kindScn'][st] else '0'} {'1' if facts['kindHandler'] else '0'}")
 
 
 def fac_line(st):
@@ -743,12 +802,17 @@ def gen_lean(facts):
            "namespace Bptk.C16.Gen"]
     for st in STYLES:
         out.append(f"def cfg_{st} : Cfg := {{ instancesShareNothing := {b(facts[st])}, restoreOnlyAddressed := {b(facts['restore'])}, "
-                   f"freshObjects := {b(facts['freshObj'])}, sharedIsScenarioDicts := {b(facts['kindScn'][st])} }}")
-        if not facts[st]:
-            w = "C16_witness_shared_cache" if facts["kindScn"][st] else "C16_witness_shared"
-            out.append(f"theorem violated_{st} : ¬ C16_full cfg_{st} := {w} cfg_{st} (by decide) (by decide)")
+                   f"freshObjects := {b(facts['freshObj'])}, sharedIsScenarioDicts := {b(facts['kindScn'][st])}, "
+                   f"sharedIsHandlerDefaults := {b(facts['kindHandler'])} }}")
+        if not facts[st] and facts["kindHandler"] and not facts["kindScn"][st]:
+            out.append(f"theorem violated_{st} : ¬ C16_full cfg_{st} := C16_witness_handler_defaults cfg_{st} (by decide) (by decide)")
             out.append(f"#print axioms violated_{st}")
-            out.append(f"theorem violated_run_{st} : ¬ C16_full cfg_{st} := {w}_run cfg_{st} (by decide) (by decide)")
+        elif not facts[st]:
+            w = "C16_witness_shared_cache" if facts["kindScn"][st] else "C16_witness_shared"
+            hh = "" if facts["kindScn"][st] else " (by decide)"
+            out.append(f"theorem violated_{st} : ¬ C16_full cfg_{st} := {w} cfg_{st} (by decide) (by decide){hh}")
+            out.append(f"#print axioms violated_{st}")
+            out.append(f"theorem violated_run_{st} : ¬ C16_full cfg_{st} := {w}_run cfg_{st} (by decide) (by decide){hh}")
             out.append(f"#print axioms violated_run_{st}")
         elif not facts["restore"]:
             out.append(f"theorem violated_{st} : ¬ C16_full cfg_{st} := C16_witness_restore_all cfg_{st} (by decide)")
@@ -837,6 +901,7 @@ FINDING_KEY = {"fresh": "cross-talk-fresh-model-factory", "sharedBase": "cross-t
                "files": "cross-talk-scenario-files-factory"}
 RESTORE_KEY = "cross-talk-restore-rebuilds-other-instances"
 RECYCLE_KEY = "cross-talk-recycled-instance-object"
+HANDLER_KEY = "cross-talk-handler-class-level-defaults"
 
 
 def run(chk):
@@ -870,6 +935,11 @@ def _run(chk, srvs):
         facts["kindScn"][st] = not owned       # WHAT is shared: the scenario dictionaries (else: the base model's points table)
         facts[st] = facts[st] and owned
     chk.notes["shared_scenario_dictionaries"] = ddetail
+    # handler-level state: did the probe histories (begin-session with settings on one instance, begin-session WITHOUT the key on
+    # another) write into a class attribute of the server module?
+    proc_restore()
+    facts["kindHandler"] = any(n.startswith("bptkServer.") for n in _proc_dirty)
+    chk.notes["process_level_state_written_by_probes"] = sorted(_proc_dirty)
     for st in STYLES:
         if not facts[st]:
             chk.notes[f"probe_detail[{st}]"] = [(p_, i_, str(g_)[:400], str(e_)[:400]) for p_, i_, g_, e_ in pdetail[st][3][:2]]
@@ -1055,7 +1125,8 @@ def _run(chk, srvs):
         chk.case((st, ad, tuple(op_str(i, op) for i, op in seq)),
                  nontrivial=nsett >= 2 or any(o[0] in ("x", "t", "c") for l in lists for o in l),
                  sample={"style": st, "adapter": ad, "seq": [op_str(i, op) for i, op in seq]} if len(seq) > 8 else None)
-        key = RESTORE_KEY if (ad and not facts["restore"]) else RECYCLE_KEY if not facts["freshObj"] else FINDING_KEY[st]
+        key = (RESTORE_KEY if (ad and not facts["restore"]) else RECYCLE_KEY if not facts["freshObj"] else
+               HANDLER_KEY if facts["kindHandler"] else FINDING_KEY[st])
         if diffs and key not in first:
             first[key] = (st, ad, lists, own, seq)
     # concurrent handlers for different instances
@@ -1072,15 +1143,19 @@ def _run(chk, srvs):
         real += ["ok", "ok", ",".join(toks)]
         bodies += [None, None, [b for _, b in check_conc_case.last_got]]
         chk.case((st, ad, schedule, pa, pb, tuple(op_str(i, op) for i, op in seq)), nontrivial=True)
-        if diffs and st not in conc_first and FINDING_KEY[st] not in first and not (ad and not facts["restore"]) and facts["freshObj"]:
+        if (diffs and st not in conc_first and FINDING_KEY[st] not in first and not (ad and not facts["restore"]) and facts["freshObj"]
+                and not facts["kindHandler"]):
             conc_first[st] = (ad, lists, pa, pb, schedule, seq, diffs)
+    proc_restore()
+    chk.notes["process_level_state_written"] = sorted(_proc_dirty)
     dist["request_kinds"] = kinds
     dist["concurrent_handler_cases"] = conc
     chk.cov["input_distribution"] = dist
     chk.cov["traces_validated_against_impl"] = len(cases) + conc["cases"]
     for st in STYLES:
-        if not facts[st] and FINDING_KEY[st] not in first:
-            first[FINDING_KEY[st]] = (st, False, pdetail[st][0], pdetail[st][1], pdetail[st][2])
+        k_ = HANDLER_KEY if facts["kindHandler"] else FINDING_KEY[st]
+        if not facts[st] and k_ not in first:
+            first[k_] = (st, False, pdetail[st][0], pdetail[st][1], pdetail[st][2])
     if not facts["restore"] and RESTORE_KEY not in first:
         first[RESTORE_KEY] = ("fresh", True, rdetail[0], [], rdetail[1])
     if not facts["freshObj"] and RECYCLE_KEY not in first:
@@ -1118,7 +1193,7 @@ def _run(chk, srvs):
     # values: with all mechanism facts good, the numbers of every step / run body equal the closed form of the harness model on the
     # effective settings the machine predicts
     vdiff, nvals = None, 0
-    all_good = all(facts[k] for k in facts if k != "kindScn")
+    all_good = all(facts[k] for k in facts if k not in ("kindScn", "kindHandler"))
     if all_good:
         for j, (a, bs) in enumerate(zip(model, bodies)):
             if bs is None:
